@@ -4,7 +4,7 @@
    A line is consumed only if
      * the call did not fail and every read equals the abstract content (reads return the last write;
        Hash / Get / Commit / Reopen / ProveAll do not change it; a reopened root has the committed content),
-     * the real root is THE root of that content: rootOf / contOf remember, over all behaviours of the
+     * the real root is THE root of that content: TLC registers 3 / 4 remember, over all behaviours of the
        whole run (all insertion / deletion orders, commits, cache limits, reopen modes that reach the same
        content), which root every content had and which content every root had - a content with two
        roots or a root with two contents is rejected ("root is a function of the content, and binds it"),
@@ -12,55 +12,69 @@
      * a proof built from the nodes the real VerifyProof walks yields the stored value, and no
        manipulated node set makes VerifyProof answer anything but the stored value. *)
 EXTENDS TrieKVOps, TraceBase
-VARIABLES kind, path, kv, avail, disk, rootOf, contOf
-tvars == <<kind, path, kv, avail, disk, rootOf, contOf, l>>
+VARIABLES kind, keys, kv, avail, disk
+tvars == <<kind, keys, kv, avail, disk, l>>
+\* nibble paths of the keys, per kind of trie, as logged by the reset events (register 5; constant over the run)
+path == TLCGet(5)[kind]
 
-Min(a, b) == IF a < b THEN a ELSE b
-Proj(p) == <<Len(p), Take(p, Min(8, Len(p)))>>
-ShapeOf(pa, c) == IF Pairs(pa, c) = {} THEN {<<0, <<>>>>}        \* the iterator reports the (empty) root position
-                  ELSE {Proj(p) : p \in NodePaths(Canon(Pairs(pa, c)), <<>>)}
+\* a node path projected to one number: its length and its first 5 nibbles (the harness logs the same projection)
+Code(p) == LET d(i) == IF i <= Len(p) THEN p[i] + 1 ELSE 0 IN
+           Len(p) * 2000000 + (((d(1) * 17 + d(2)) * 17 + d(3)) * 17 + d(4)) * 17 + d(5)
+ShapeOf(pa, c) == IF Pairs(pa, c) = {} THEN {0}        \* the iterator reports the (empty) root position
+                  ELSE {Code(p) : p \in NodePaths(Canon(Pairs(pa, c)), <<>>)}
 
-\* what every event must show when the content is c (kd, pa: kind and key paths of this behaviour)
-Obs(kd, pa, c) ==
-  LET id == <<kd, c>> IN
+\* what is stored, as an identity for the root history: the set of <<key, value>> pairs; keys of the plain and
+\* of the secure trie are different byte strings, the empty content is the same for both
+Id(kd, c) == LET st == {<<k, c[k]>> : k \in {x \in DOMAIN c : c[x] # NONE}} IN <<IF st = {} THEN "" ELSE kd, st>>
+\* The root history lives in TLC registers 3 (content -> root) and 4 (root -> content), not in the state:
+\* it spans all behaviours of the run and would otherwise be copied and fingerprinted with every state.
+ASSUME TLCSet(3, <<>>) /\ TLCSet(4, <<>>) /\ TLCSet(5, <<>>)
+\* what every event must show when the content is c (kd, ks, pa: kind, key order and key paths of this behaviour)
+Obs(kd, ks, pa, c) ==
+  LET id == Id(kd, c)  ro == TLCGet(3)  co == TLCGet(4) IN
   /\ E.err = ""
-  /\ E.reads = c
+  /\ Len(E.reads) = Len(ks) /\ \A i \in 1..Len(ks) : E.reads[i] = c[ks[i]]      \* TryGet of every key
   /\ "itererr" \notin DOMAIN E
   /\ ToSet(E.shape) = ShapeOf(pa, c)
-  /\ (id \in DOMAIN rootOf => rootOf[id] = E.root)
-  /\ (E.root \in DOMAIN contOf => contOf[E.root] = id)
-  /\ rootOf' = IF id \in DOMAIN rootOf THEN rootOf ELSE (id :> E.root) @@ rootOf
-  /\ contOf' = IF E.root \in DOMAIN contOf THEN contOf ELSE (E.root :> id) @@ contOf
+  /\ (id \in DOMAIN ro => ro[id] = E.root)              \* the same content never has two roots
+  /\ (E.root \in DOMAIN co => co[E.root] = id)          \* the same root never has two contents
+  /\ IF id \in DOMAIN ro THEN TRUE ELSE TLCSet(3, (id :> E.root) @@ ro)
+  /\ IF E.root \in DOMAIN co THEN TRUE ELSE TLCSet(4, (E.root :> id) @@ co)
 
 TReset == /\ Ev("reset")
-          /\ kind' = E.kind /\ path' = E.paths
+          /\ kind' = E.kind /\ keys' = E.keys
+          /\ LET reg == TLCGet(5) IN
+             IF E.kind \in DOMAIN reg
+             THEN /\ \A k \in DOMAIN E.paths \cap DOMAIN reg[E.kind] : reg[E.kind][k] = E.paths[k]
+                  /\ TLCSet(5, [reg EXCEPT ![E.kind] = E.paths @@ reg[E.kind]])
+             ELSE TLCSet(5, (E.kind :> E.paths) @@ reg)
           /\ kv' = [k \in ToSet(E.keys) |-> NONE] /\ avail' = {} /\ disk' = {}
-          /\ Obs(E.kind, E.paths, [k \in ToSet(E.keys) |-> NONE])
-Same == UNCHANGED <<kind, path, avail, disk>>
-TPut == /\ Ev("Put") /\ kv' = PutKV(kv, E.a[1], E.a[2]) /\ Obs(kind, path, PutKV(kv, E.a[1], E.a[2])) /\ Same
-TRemove == /\ Ev("Remove") /\ kv' = DelKV(kv, E.a[1]) /\ Obs(kind, path, DelKV(kv, E.a[1])) /\ Same
-TGet == /\ Ev("Get") /\ E.val = kv[E.a[1]] /\ Obs(kind, path, kv) /\ UNCHANGED kv /\ Same
-THash == /\ Ev("Hash") /\ E.ret = E.root /\ Obs(kind, path, kv) /\ UNCHANGED kv /\ Same
-TCommit == /\ Ev("Commit") /\ E.ret = E.root /\ Obs(kind, path, kv)
+          /\ Obs(E.kind, E.keys, E.paths, [k \in ToSet(E.keys) |-> NONE])
+Same == UNCHANGED <<kind, keys, avail, disk>>
+TPut == /\ Ev("Put") /\ kv' = PutKV(kv, E.a[1], E.a[2]) /\ Obs(kind, keys, path, PutKV(kv, E.a[1], E.a[2])) /\ Same
+TRemove == /\ Ev("Remove") /\ kv' = DelKV(kv, E.a[1]) /\ Obs(kind, keys, path, DelKV(kv, E.a[1])) /\ Same
+TGet == /\ Ev("Get") /\ E.val = kv[E.a[1]] /\ Obs(kind, keys, path, kv) /\ UNCHANGED kv /\ Same
+THash == /\ Ev("Hash") /\ E.ret = E.root /\ Obs(kind, keys, path, kv) /\ UNCHANGED kv /\ Same
+TCommit == /\ Ev("Commit") /\ E.ret = E.root /\ Obs(kind, keys, path, kv)
            /\ avail' = avail \cup {kv} /\ disk' = IF E.a[1] THEN disk \cup {kv} ELSE disk
-           /\ UNCHANGED <<kind, path, kv>>
+           /\ UNCHANGED <<kind, keys, kv>>
 TReopen == /\ Ev("Reopen")
            /\ LET mode == E.a[2]  c == E.c IN
               /\ IF mode = "same" THEN c \in avail ELSE c \in disk
-              /\ kv' = c /\ Obs(kind, path, c)
+              /\ kv' = c /\ Obs(kind, keys, path, c)
               /\ E.from = E.root                                   \* opened by the root Commit returned for c
               /\ avail' = IF mode = "same" THEN avail ELSE disk   \* a new TrieDatabase has an empty node cache
-           /\ UNCHANGED <<kind, path, disk>>
+           /\ UNCHANGED <<kind, keys, disk>>
 ProofOK(p) ==
   /\ IF Expected(kv, p.k) # NONE THEN ~p.refused /\ p.val = kv[p.k]      \* present keys verify
      ELSE ProofAnswerOK(kv, p.k, p.refused, p.val)                       \* absent keys: absent or refused
   /\ \A j \in 1..Len(p.t) : ProofAnswerOK(kv, p.k, p.t[j].refused, p.t[j].val)   \* no node set forges another answer
 TProve == /\ Ev("ProveAll") /\ kv \in avail
           /\ DOMAIN kv \subseteq {E.proofs[i].k : i \in 1..Len(E.proofs)}
-          /\ \A i \in 1..Len(E.proofs) : ProofOK(E.proofs[i])
-          /\ Obs(kind, path, kv) /\ UNCHANGED kv /\ Same
+          \* "= TRUE": evaluated as one boolean (TLC would otherwise branch on every disjunction inside)
+          /\ (\A i \in 1..Len(E.proofs) : ProofOK(E.proofs[i])) = TRUE
+          /\ Obs(kind, keys, path, kv) /\ UNCHANGED kv /\ Same
 TraceNext == TReset \/ TPut \/ TRemove \/ TGet \/ THash \/ TCommit \/ TReopen \/ TProve
-TraceSpec == /\ l = 1 /\ kind = "" /\ path = <<>> /\ kv = <<>> /\ avail = {} /\ disk = {}
-             /\ rootOf = <<>> /\ contOf = <<>>
+TraceSpec == /\ l = 1 /\ kind = "" /\ keys = <<>> /\ kv = <<>> /\ avail = {} /\ disk = {}
              /\ [][TraceNext]_tvars
 ====
